@@ -76,7 +76,7 @@ pub enum V {
     /// element type, elements
     Arr(Ty, Vec<V>),
     /// element type, entries in ascending key order
-    Map(Ty, BTreeMap<Vec<u8>, V>),
+    Map(Ty, #[serde(with = "pairs")] BTreeMap<Vec<u8>, V>),
 }
 
 impl V {
@@ -175,5 +175,20 @@ impl V {
                     .join(",")
             ),
         }
+    }
+}
+
+/// JSON has string keys only: (de)serialize byte-keyed maps as lists of pairs.
+mod pairs {
+    use super::V;
+    use serde::{Deserialize, Deserializer, Serialize, Serializer};
+    use std::collections::BTreeMap;
+
+    pub fn serialize<S: Serializer>(m: &BTreeMap<Vec<u8>, V>, s: S) -> Result<S::Ok, S::Error> {
+        m.iter().collect::<Vec<_>>().serialize(s)
+    }
+
+    pub fn deserialize<'de, D: Deserializer<'de>>(d: D) -> Result<BTreeMap<Vec<u8>, V>, D::Error> {
+        Ok(Vec::<(Vec<u8>, V)>::deserialize(d)?.into_iter().collect())
     }
 }
